@@ -1,0 +1,49 @@
+//go:build verif
+// +build verif
+
+package livesql
+
+import (
+	"reflect"
+	"unsafe"
+
+	"github.com/samsarahq/thunder/logger"
+	"github.com/siddontang/go-mysql/replication"
+)
+
+// NewBinlogForVerif builds a Binlog around an in-process event stream instead
+// of a MySQL replication connection. push delivers one event to RunPollLoop;
+// fail makes the stream return err (which ends RunPollLoop). Everything
+// downstream of the stream (RunPollLoop, event parsing, column maps, the
+// tracker) is the production code. Close must not be called on the result.
+func NewBinlogForVerif(ldb *LiveDB, database string) (b *Binlog, push func(*replication.BinlogEvent), fail func(error)) {
+	streamer := &replication.BinlogStreamer{}
+	ch := make(chan *replication.BinlogEvent, 10240)
+	ech := make(chan error, 4)
+	v := reflect.ValueOf(streamer).Elem()
+	setUnexported := func(name string, val interface{}) {
+		f := v.FieldByName(name)
+		reflect.NewAt(f.Type(), unsafe.Pointer(f.UnsafeAddr())).Elem().Set(reflect.ValueOf(val))
+	}
+	setUnexported("ch", ch)
+	setUnexported("ech", ech)
+
+	b = &Binlog{
+		db:            ldb.DB,
+		database:      database,
+		tracker:       ldb.tracker,
+		streamer:      streamer,
+		tableVersions: make(map[string]uint64),
+		columnMaps:    make(map[string]*columnMap),
+		logger:        logger.New(),
+	}
+	return b, func(e *replication.BinlogEvent) { ch <- e }, func(err error) { ech <- err }
+}
+
+// VerifTrackedResources returns how many live-query resources the LiveDB's
+// tracker currently holds.
+func VerifTrackedResources(ldb *LiveDB) int {
+	ldb.tracker.mu.Lock()
+	defer ldb.tracker.mu.Unlock()
+	return len(ldb.tracker.resources)
+}
